@@ -412,3 +412,57 @@ func isNilIdent(info *types.Info, e ast.Expr) bool {
 	_, isNil := info.Uses[id].(*types.Nil)
 	return isNil
 }
+
+// condImplies reports whether "e evaluates to val" implies that some sub-expression G (recognised by isG)
+// has a definite truth value; returns that value and G.
+func condImplies(e ast.Expr, val bool, isG func(ast.Expr) bool) (gval bool, g ast.Expr, ok bool) {
+	e = ast.Unparen(e)
+	if isG(e) {
+		return val, e, true
+	}
+	switch x := e.(type) {
+	case *ast.UnaryExpr:
+		if x.Op == token.NOT {
+			return condImplies(x.X, !val, isG)
+		}
+	case *ast.BinaryExpr:
+		if (x.Op == token.LAND && val) || (x.Op == token.LOR && !val) {
+			if gv, g, ok := condImplies(x.X, val, isG); ok {
+				return gv, g, true
+			}
+			return condImplies(x.Y, val, isG)
+		}
+	}
+	return false, nil, false
+}
+
+// passEdge: if block b ends in a condition one of whose outcomes implies G is true, returns the successor
+// index of that outcome (0 = condition true, 1 = false).
+func passEdge(b *cfg.Block, isG func(ast.Expr) bool) (int, ast.Expr, bool) {
+	ce := condOf(b)
+	if ce == nil {
+		return 0, nil, false
+	}
+	if gv, g, ok := condImplies(ce, true, isG); ok && gv {
+		return 0, g, true
+	}
+	if gv, g, ok := condImplies(ce, false, isG); ok && gv {
+		return 1, g, true
+	}
+	return 0, nil, false
+}
+
+// failEdge: successor index on which G is implied false.
+func failEdge(b *cfg.Block, isG func(ast.Expr) bool) (int, ast.Expr, bool) {
+	ce := condOf(b)
+	if ce == nil {
+		return 0, nil, false
+	}
+	if gv, g, ok := condImplies(ce, true, isG); ok && !gv {
+		return 0, g, true
+	}
+	if gv, g, ok := condImplies(ce, false, isG); ok && !gv {
+		return 1, g, true
+	}
+	return 0, nil, false
+}
